@@ -273,6 +273,7 @@ func oddTypes(x interface{}, inArray bool, acc map[string]bool) {
 }
 
 func runC09(c *sim.Ctx, t *testing.T) {
+	c.PermuteOff = true
 	sim.Install(c)
 	defer sim.Uninstall()
 	var gs *ref.Spec
@@ -281,7 +282,7 @@ func runC09(c *sim.Ctx, t *testing.T) {
 	case 8:
 		gs = c09QuotaSpec(c)
 	case 0, 1:
-		gs = genSpec(c, genCfg{failOps: true, permanents: true, guards: true, loops: true, maxNodes: 5})
+		gs = genSpec(c, genCfg{failOps: true, permanents: true, guards: true, loops: true, maxNodes: 5, globals: true})
 	case 2:
 		gs = c09IneqSpec(c)
 	case 3:
@@ -328,7 +329,9 @@ func runC09(c *sim.Ctx, t *testing.T) {
 			if to := w.To(); to != nil {
 				st = to
 			}
-			out = append(out, obs{stateCanon(st), canonList(allEmitted(w))})
+			// (error texts included: with the map-order seam switched off both twins take the
+			// same path through the same code, so even a diagnostic text may not tell them apart)
+			out = append(out, obs{st.NodeName + "/" + ref.Canon(map[string]interface{}(st.Bs)), canonList(allEmitted(w))})
 		}
 		return out, states, true
 	}
